@@ -38,7 +38,7 @@ PROPERTY = "C46"
 LEVEL = "exploration"
 ENGINE = "web"
 TECHNIQUE = "route x method x credential x XSRF x Sec-Fetch-Site enumeration against the live application, state digest + taint tags"
-BUDGET = {"quick": (9000, 13), "thorough": (60_000, 200)}
+BUDGET = {"quick": (9000, 8), "thorough": (60_000, 200)}
 WORKERS = {"quick": 4, "thorough": 16}
 REQUIRED = [
     "unauth_status",
@@ -146,6 +146,7 @@ def classify(item, status):
         and pol.XSRF_VALID[item["xsrf"]]
         and item["sfs"] not in (None, "same-origin", "none")
         and not item.get("ws")
+        and status == 500  # refused, but by an internal error instead of 403; any other answer is a different defect
     ):
         # the request passes tornado's XSRF check and reaches RequestHandler.prepare's Sec-Fetch-Site rejection
         return "unauth-unsafe-request-rejected-by-sec-fetch-site-check"
@@ -176,6 +177,7 @@ class Plan:
             for m in pol.METHODS:
                 A.append((ri, p, m, "cookie-valid", "none", 0))
                 A.append((ri, p, m, "cookie-valid", "valid-v1-header", 4))
+                A.append((ri, p, m, "cookie-valid", "valid-v2-header", 3))
                 A.append((ri, p, m, "bearer-wrong", "valid-v2-header", 1))
         # websocket handshakes
         self.ws_items = []
@@ -433,7 +435,9 @@ async def amain(ctx):
         ctx.extra["full_product_size"] = plan.product_size
         flowdump = flow_dump_bytes()
         done_all = False
-        for i in ctx.cases():
+        # the time budget is meant for cases: give back what importing mitmproxy / starting the server took (capped)
+        startup = min(time.monotonic() - ctx.t0, 6.0)
+        for i in ctx.cases(frac=1.0 + startup / max(ctx.seconds, 1e-9)):
             k = i * ctx.nworkers + ctx.worker
             item, stage = plan.item(k)
             if item is None:
